@@ -262,6 +262,7 @@ def gemmh_bin(build):
 def build_gemmh(build):
     args, tdir, _ = BUILDS[build]
     with lib.build_lock("lock-cargo-gemmh-" + build):
+        lib.point_manifest(GEMMH)
         lock_src = os.path.join(lib.REPO, "Cargo.lock")
         if os.path.exists(lock_src) and not os.path.exists(os.path.join(GEMMH, "Cargo.lock")):
             shutil.copy(lock_src, os.path.join(GEMMH, "Cargo.lock"))
